@@ -10,6 +10,8 @@ import Reduino.Lang.CSem
   numbered by the counter threaded through the parse (`Stmt.tmpEnd`; `tr` refuses a program whose stored numbers are not the
   parser's), declared with the inferred type of their right-hand side, then the plain assignments.
   A name-free initialiser that Python cannot evaluate (`x = 7 // 0`) is not a constant: default + run-time assignment.
+  Strings (W13): `_infer_expr_type` gives `String` for a literal and for a binary operation with a `String` operand; a constant string
+  initialiser goes into the global declaration (`String s = "ab";`), anything else gets the default `""`.
   Programs that assign a NEW name below the top level (they need the promotion machinery) are outside the fragment.
 -/
 namespace Reduino.Lang
@@ -22,6 +24,7 @@ inductive TrErr where
 def Expr.nameFree : Expr → Bool
   | .int _ => true
   | .bool _ => true
+  | .str _ => true
   | .var _ => false
   | .bin _ a b => a.nameFree && b.nameFree
   | .neg a => a.nameFree
@@ -32,13 +35,17 @@ def Expr.nameFree : Expr → Bool
   | .ite c a b => c.nameFree && a.nameFree && b.nameFree
   | .abs a => a.nameFree                 -- `abs`, `min`, `max` are not names for `_expr_has_name`
   | .mm _ a b => a.nameFree && b.nameFree
+  | .toStr a => a.nameFree               -- `str` is one of `_SAFE_NAME_REFERENCES`
 
 /-- `_infer_expr_type` on the fragment -/
 def inferTy (te : C.TyEnv) : Expr → Ty
   | .int _ => .int
   | .bool _ => .bool
+  | .str _ => .string
   | .var x => (te.lookup x).getD .int
-  | .bin _ _ _ => .int
+  -- `"String" in (left, right)` → String (the re-typing of a NAME operand that `_infer_expr_type` performs on the way is outside:
+  -- `Expr.wt` admits a string operand only next to another one)
+  | .bin _ a b => if inferTy te a = .string ∨ inferTy te b = .string then .string else .int
   | .neg a => inferTy te a
   | .cmp _ _ _ => .bool
   | .and _ _ => .bool
@@ -47,6 +54,7 @@ def inferTy (te : C.TyEnv) : Expr → Ty
   | .ite _ a b => if inferTy te a = inferTy te b then inferTy te a else .int
   | .abs _ => .int                       -- `_BUILTIN_CALL_RETURN_TYPES`
   | .mm _ _ _ => .int
+  | .toStr _ => .string                  -- `_BUILTIN_CALL_RETURN_TYPES["str"]`; also `JoinedStr`
 
 /-- `_eval_const` on a name-free expression: Python's own value -/
 def evalConst (e : Expr) : Option Val := if e.nameFree then (Py.eval [] e).toOption else none
@@ -60,6 +68,7 @@ def foldArg (e : Expr) : Expr :=
 def defaultOf : Ty → Expr
   | .int => .int 0
   | .bool => .bool false
+  | .string => .str ""
 
 /-- every target of a tuple assignment is declared with the type inferred for its right-hand side -/
 def okTargets (te : C.TyEnv) : List String → List Expr → Bool
